@@ -1035,6 +1035,12 @@ bool IGXMLScanner::normalizeAttValue( const   XMLAttDef* const    attDef
     else {
         States curState = InContent;
         bool firstNonWS = false;
+
+        //  Validity Constraint for Standalone document declaration, XML 1.0,
+        //  Section 2.9: set while a change of this value by the normalization
+        //  that its external declaration asks for still has to be reported.
+        bool checkStandaloneNorm = fStandalone && fValidate && isAttTokenizedExternal;
+
         //  Get the next character from the source. We have to watch for
         //  escaped characters (which are indicated by a 0xFFFF value followed
         //  by the char that was escaped.)
@@ -1066,6 +1072,14 @@ bool IGXMLScanner::normalizeAttValue( const   XMLAttDef* const    attDef
                 }
                 else
                 {
+                    //  A second whitespace character in a row after some
+                    //  content: the run collapses to one space (a leading
+                    //  run has been reported at its first character).
+                    if (firstNonWS && checkStandaloneNorm)
+                    {
+                        fValidator->emitError(XMLValid::NoAttNormForStandalone, attName);
+                        checkStandaloneNorm = false;
+                    }
                     srcPtr++;
                     continue;
                 }
@@ -1078,16 +1092,14 @@ bool IGXMLScanner::normalizeAttValue( const   XMLAttDef* const    attDef
                     curState = InWhitespace;
                     srcPtr++;
 
-                    // Check Validity Constraint for Standalone document declaration
-                    // XML 1.0, Section 2.9
-                    if (fStandalone && fValidate && isAttTokenizedExternal)
+                    //  Can't have a standalone document declaration of "yes" if
+                    //  attribute values are subject to normalisation: leading
+                    //  whitespace is dropped. A single whitespace character
+                    //  between tokens ends up as one space either way.
+                    if (!firstNonWS && checkStandaloneNorm)
                     {
-                        if (!firstNonWS || (nextCh != chSpace && *srcPtr && fReaderMgr.getCurrentReader()->isWhitespace(*srcPtr)))
-                        {
-                            // Can't have a standalone document declaration of "yes" if  attribute
-                            // values are subject to normalisation
-                            fValidator->emitError(XMLValid::NoAttNormForStandalone, attName);
-                        }
+                        fValidator->emitError(XMLValid::NoAttNormForStandalone, attName);
+                        checkStandaloneNorm = false;
                     }
                     continue;
                 }
@@ -1100,6 +1112,10 @@ bool IGXMLScanner::normalizeAttValue( const   XMLAttDef* const    attDef
             // And move up to the next character in the source
             srcPtr++;
         }
+
+        // Trailing whitespace gets dropped, which changes the value too
+        if (curState == InWhitespace && firstNonWS && checkStandaloneNorm)
+            fValidator->emitError(XMLValid::NoAttNormForStandalone, attName);
     }
 
     return retVal;
@@ -2444,6 +2460,11 @@ bool IGXMLScanner::scanAttValue(  const   XMLAttDef* const    attDef
                                                              type == XMLAttDef::NmTokens)
                                    :false;
 
+    //  Validity Constraint for Standalone document declaration, XML 1.0,
+    //  Section 2.9: set while a change of this value by the normalization
+    //  that its external declaration asks for still has to be reported.
+    bool  checkStandaloneNorm = fStandalone && fValidate && isAttTokenizedExternal;
+
     //  Loop until we get the attribute value. Note that we use a double
     //  loop here to avoid the setup/teardown overhead of the exception
     //  handler on every round.
@@ -2468,7 +2489,12 @@ bool IGXMLScanner::scanAttValue(  const   XMLAttDef* const    attDef
                 if (nextCh == quoteCh)
                 {
                     if (curReader == fReaderMgr.getCurrentReaderNum())
+                    {
+                        // Trailing whitespace gets dropped, which changes the value too
+                        if (curState == InWhitespace && firstNonWS && checkStandaloneNorm)
+                            fValidator->emitError(XMLValid::NoAttNormForStandalone, attrName);
                         return true;
+                    }
 
                     // Watch for spillover into a previous entity
                     if (curReader > fReaderMgr.getCurrentReaderNum())
@@ -2580,6 +2606,14 @@ bool IGXMLScanner::scanAttValue(  const   XMLAttDef* const    attDef
                         }
                         else
                         {
+                            //  A second whitespace character in a row after some
+                            //  content: the run collapses to one space (a leading
+                            //  run has been reported at its first character).
+                            if (firstNonWS && checkStandaloneNorm)
+                            {
+                                fValidator->emitError(XMLValid::NoAttNormForStandalone, attrName);
+                                checkStandaloneNorm = false;
+                            }
                             continue;
                         }
                     }
@@ -2590,16 +2624,14 @@ bool IGXMLScanner::scanAttValue(  const   XMLAttDef* const    attDef
                         {
                             curState = InWhitespace;
 
-                            // Check Validity Constraint for Standalone document declaration
-                            // XML 1.0, Section 2.9
-                            if (fStandalone && fValidate && isAttTokenizedExternal)
+                            //  Can't have a standalone document declaration of "yes" if
+                            //  attribute values are subject to normalisation: leading
+                            //  whitespace is dropped. A single whitespace character
+                            //  between tokens ends up as one space either way.
+                            if (!firstNonWS && checkStandaloneNorm)
                             {
-                                if (!firstNonWS || (nextCh != chSpace && fReaderMgr.lookingAtSpace()))
-                                {
-                                     // Can't have a standalone document declaration of "yes" if  attribute
-                                     // values are subject to normalisation
-                                     fValidator->emitError(XMLValid::NoAttNormForStandalone, attrName);
-                                }
+                                fValidator->emitError(XMLValid::NoAttNormForStandalone, attrName);
+                                checkStandaloneNorm = false;
                             }
                             continue;
                         }
